@@ -152,18 +152,18 @@ func hasProp(fc *FuncContract, p string) bool {
 }
 
 type ObligReport struct {
-	Name      string            `json:"name"`
-	Function  string            `json:"function"`
-	Kind      string            `json:"kind"`
-	Props     []string          `json:"props"`
-	Pos       string            `json:"pos"`
-	Text      string            `json:"text"`
-	Instances int               `json:"path_instances"`
-	Status    string            `json:"status"` // discharged | failed | unbound
-	Engines   map[string]int    `json:"engines"`
-	Ms        int64             `json:"solver_ms"`
-	Failures  []FailureReport   `json:"failures,omitempty"`
-	Sample    string            `json:"sample_goal,omitempty"`
+	Name      string          `json:"name"`
+	Function  string          `json:"function"`
+	Kind      string          `json:"kind"`
+	Props     []string        `json:"props"`
+	Pos       string          `json:"pos"`
+	Text      string          `json:"text"`
+	Instances int             `json:"path_instances"`
+	Status    string          `json:"status"` // discharged | failed | unbound
+	Engines   map[string]int  `json:"engines"`
+	Ms        int64           `json:"solver_ms"`
+	Failures  []FailureReport `json:"failures,omitempty"`
+	Sample    string          `json:"sample_goal,omitempty"`
 }
 
 type FailureReport struct {
